@@ -552,4 +552,245 @@ theorem istep_stable (hP : LxStable (lexPrimM true)) (stack : List PS) : StepSta
           exact stepSlotValue_stable hP k _ below (x :: i1) q
 
 
+theorem mu_append (st st' : List PS) (rest p q : List Char) :
+    (mu st' (rest ++ q) < mu st (p ++ q)) ↔ (mu st' rest < mu st p) := by
+  simp only [mu, List.length_append]; omega
+
+/-- **Chunk insensitivity of `decode_inner`.**  Run it on the text seen so far (`p`): if it asked for more input, the run
+on the longer text continues from where it stopped; otherwise the run on the longer text gives the same verdict (with
+the extra text left unconsumed). -/
+theorem decodeInner_ext (hP : LxStable (lexPrimM true)) (st : List PS) (m : MSt) (p q : List Char) :
+    decodeInner st m (p ++ q) =
+      (if (decodeInner st m p).2.2.2 = .none then
+        decodeInner (decodeInner st m p).1 (decodeInner st m p).2.1 ((decodeInner st m p).2.2.1 ++ q)
+       else ((decodeInner st m p).1, (decodeInner st m p).2.1, (decodeInner st m p).2.2.1 ++ q, (decodeInner st m p).2.2.2)) := by
+  induction st, m, p using decodeInner.induct with
+  | case1 st m p evs am st' rest hs hlt m' hf ih =>
+    -- ok step, events fed, continue
+    have hst := (istep_stable hP st p q).1 _ _ _ _ hs
+    rw [decodeInner.eq_def st m p, decodeInner.eq_def st m (p ++ q)]
+    simp only [hs, hst, hlt, (mu_append st st' rest p q).mpr hlt, ↓reduceIte, hf]
+    exact ih
+  | case2 st m p evs am st' rest hs hlt m' v hf =>
+    have hst := (istep_stable hP st p q).1 _ _ _ _ hs
+    rw [decodeInner.eq_def st m p, decodeInner.eq_def st m (p ++ q)]
+    simp [hs, hst, hlt, (mu_append st st' rest p q).mpr hlt, hf]
+  | case3 st m p evs am st' rest hs hlt m' hf =>
+    have hst := (istep_stable hP st p q).1 _ _ _ _ hs
+    rw [decodeInner.eq_def st m p, decodeInner.eq_def st m (p ++ q)]
+    simp [hs, hst, hlt, (mu_append st st' rest p q).mpr hlt, hf]
+  | case4 st m p evs am st' rest hs hlt =>
+    have hst := (istep_stable hP st p q).1 _ _ _ _ hs
+    have hlt' : ¬ mu st' (rest ++ q) < mu st (p ++ q) := fun h => hlt ((mu_append st st' rest p q).mp h)
+    rw [decodeInner.eq_def st m p, decodeInner.eq_def st m (p ++ q)]
+    simp [hs, hst, hlt, hlt']
+  | case5 st m p hs v hfl =>
+    have hst := (istep_stable hP st p q).2.2.2 hs
+    rw [decodeInner.eq_def st m p, decodeInner.eq_def st m (p ++ q)]
+    simp [hs, hst, hfl]
+  | case6 st m p hs hfl =>
+    have hst := (istep_stable hP st p q).2.2.2 hs
+    rw [decodeInner.eq_def st m p, decodeInner.eq_def st m (p ++ q)]
+    simp [hs, hst, hfl]
+  | case7 st m p hs =>
+    rw [decodeInner.eq_def st m p]
+    simp [hs]
+  | case8 st m p hs =>
+    have hst := (istep_stable hP st p q).2.1 hs
+    rw [decodeInner.eq_def st m p, decodeInner.eq_def st m (p ++ q)]
+    simp [hs, hst]
+  | case9 st m p hs =>
+    have hst := (istep_stable hP st p q).2.2.1 hs
+    rw [decodeInner.eq_def st m p, decodeInner.eq_def st m (p ++ q)]
+    simp [hs, hst]
+
+
+/-- A run that asked for more input is a fixed point: run again on what it left, it asks again at once. -/
+theorem decodeInner_none_idem (st : List PS) (m : MSt) (p : List Char) :
+    (decodeInner st m p).2.2.2 = .none →
+    decodeInner (decodeInner st m p).1 (decodeInner st m p).2.1 (decodeInner st m p).2.2.1 = decodeInner st m p := by
+  induction st, m, p using decodeInner.induct with
+  | case1 st m p evs am st' rest hs hlt m' hf ih =>
+    rw [decodeInner.eq_def st m p]
+    simp only [hs, hlt, ↓reduceIte, hf]
+    exact ih
+  | case2 st m p evs am st' rest hs hlt m' v hf =>
+    rw [decodeInner.eq_def st m p]; simp [hs, hlt, hf]
+  | case3 st m p evs am st' rest hs hlt m' hf =>
+    rw [decodeInner.eq_def st m p]; simp [hs, hlt, hf]
+  | case4 st m p evs am st' rest hs hlt =>
+    rw [decodeInner.eq_def st m p]; simp [hs, hlt]
+  | case5 st m p hs v hfl => rw [decodeInner.eq_def st m p]; simp [hs, hfl]
+  | case6 st m p hs hfl => rw [decodeInner.eq_def st m p]; simp [hs, hfl]
+  | case7 st m p hs =>
+    intro _
+    rw [decodeInner.eq_def st m p]
+    simp only [hs]
+    rw [decodeInner.eq_def st m p]
+    simp only [hs]
+  | case8 st m p hs => rw [decodeInner.eq_def st m p]; simp [hs]
+  | case9 st m p hs => rw [decodeInner.eq_def st m p]; simp [hs]
+
+/-- The bare decoder: feeding the chunks one by one is feeding them all at once. -/
+theorem rawRun_merge (hP : LxStable (lexPrimM true)) :
+    ∀ (cs : List (List Char)) (d : Raw) (buf c : List Char),
+      rawRun d buf (c :: cs) = rawRun d buf [c ++ cs.flatten]
+  | [], d, buf, c => by simp
+  | c2 :: cs', d, buf, c => by
+    have ih := rawRun_merge hP cs'
+    have hext := decodeInner_ext hP d.stack d.m (buf ++ c) (c2 ++ cs'.flatten)
+    have hflat : (c2 :: cs').flatten = c2 ++ cs'.flatten := by simp
+    rw [hflat]
+    rw [rawRun, rawRun]
+    simp only [Raw.decode]
+    rw [show buf ++ (c ++ (c2 ++ cs'.flatten)) = (buf ++ c) ++ (c2 ++ cs'.flatten) by simp]
+    rw [hext]
+    cases hd : decodeInner d.stack d.m (buf ++ c) with
+    | mk st' r1 =>
+      obtain ⟨m', rest, o⟩ := r1
+      cases o with
+      | none =>
+        simp only [↓reduceIte]
+        rw [ih { stack := st', m := m' } rest c2, rawRun]
+        simp only [Raw.decode]
+        rcases h2 : decodeInner st' m' (rest ++ (c2 ++ cs'.flatten)) with ⟨a, b, r, o2⟩
+        cases o2 <;> simp
+      | value v => simp
+      | err => simp
+      | panic => simp
+      | fuel => simp
+
+
+/-- What `ParseIterator` + `parse_recognize_with` do when the incremental parser says `Incomplete`. -/
+def finalOne (st : List PS) (m : MSt) (inp : List Char) : Out :=
+  match finalStep st inp with
+  | .ok evs _ _ _ =>
+    (match feedAll m evs with
+     | (m', none) => (match m'.flush with | some v => .value v | none => .err)
+     | (_, some (some v)) => .value v
+     | (_, some none) => .err)
+  | .panic => .panic
+  | _ => .err
+
+/-- The one-shot parser is `decode_inner` on the whole text, then the final-segment parser if it asked for more. -/
+theorem oneFrom_eq (st : List PS) (m : MSt) (T : List Char) :
+    oneFrom st m T =
+      (match decodeInner st m T with
+       | (st', m', rest, .none) => finalOne st' m' rest
+       | (_, _, _, o) => o) := by
+  induction st, m, T using decodeInner.induct with
+  | case1 st m p evs am st' rest hs hlt m' hf ih =>
+    rw [oneFrom.eq_def, decodeInner.eq_def st m p]
+    simp only [hs, hlt, ↓reduceIte, hf]
+    exact ih
+  | case2 st m p evs am st' rest hs hlt m' v hf =>
+    rw [oneFrom.eq_def, decodeInner.eq_def st m p]; simp [hs, hlt, hf]
+  | case3 st m p evs am st' rest hs hlt m' hf =>
+    rw [oneFrom.eq_def, decodeInner.eq_def st m p]; simp [hs, hlt, hf]
+  | case4 st m p evs am st' rest hs hlt =>
+    rw [oneFrom.eq_def, decodeInner.eq_def st m p]; simp [hs, hlt]
+  | case5 st m p hs v hfl => rw [oneFrom.eq_def, decodeInner.eq_def st m p]; simp [hs, hfl]
+  | case6 st m p hs hfl => rw [oneFrom.eq_def, decodeInner.eq_def st m p]; simp [hs, hfl]
+  | case7 st m p hs =>
+    rw [oneFrom.eq_def, decodeInner.eq_def st m p]
+    simp only [hs, finalOne]
+    cases hfs : finalStep st p with
+    | ok evs am' st2 r2 =>
+      simp only
+      rcases hfa : feedAll m evs with ⟨m', o⟩
+      cases o with
+      | none => simp only; cases m'.flush <;> rfl
+      | some r => cases r <;> rfl
+    | fin => rfl
+    | inc => rfl
+    | err => rfl
+    | panic => rfl
+  | case8 st m p hs => rw [oneFrom.eq_def, decodeInner.eq_def st m p]; simp [hs]
+  | case9 st m p hs => rw [oneFrom.eq_def, decodeInner.eq_def st m p]; simp [hs]
+
+
+theorem finalStep_ne_inc (st : List PS) (inp : List Char) : finalStep st inp ≠ .inc := by
+  unfold finalStep
+  repeat' split
+  all_goals (intro h; cases h)
+
+theorem finalStep_noFinal {st : List PS} (h : hasFinal st = false) (inp : List Char) : finalStep st inp = .err := by
+  unfold finalStep
+  split
+  · simp [hasFinal] at h
+  · simp [hasFinal] at h
+  · rfl
+
+/-- "Need more input" at the very end of the input counts as an error. -/
+def cls : Out → Out
+  | .none => .err
+  | o => o
+
+/-- The recogniser cannot be flushed while the parser is in a nested state: when `decode_inner`, started afresh, stops
+asking for more input with a stack other than `[Init]` / `[AfterAttr]`, `try_flush` has nothing to give. -/
+def FlushCoupled : Prop :=
+  ∀ (T : List Char) (st : List PS) (m : MSt) (rest : List Char),
+    decodeInner [.init] {} T = (st, m, rest, .none) → hasFinal st = false → m.flush = none
+
+/-- End of input for a decoder that asked for more: `decode_eof` and the one-shot parser's final step agree. -/
+theorem decodeEof_eq_finalOne (st : List PS) (m : MSt) (rest : List Char)
+    (hD : decodeInner st m rest = (st, m, rest, .none)) (hfl : hasFinal st = false → m.flush = none) :
+    cls (({ stack := st, m := m } : Raw).decodeEof rest rest.isEmpty).2 = cls (finalOne st m rest) := by
+  simp only [Raw.decodeEof, hD, finalOne]
+  cases hf : hasFinal st with
+  | false =>
+    simp only [Bool.false_eq_true, ↓reduceIte, hfl hf, finalStep_noFinal hf]
+    cases rest.isEmpty <;> rfl
+  | true =>
+    simp only [↓reduceIte]
+    cases hfs : finalStep st rest with
+    | inc => exact absurd hfs (finalStep_ne_inc st rest)
+    | fin => rfl
+    | err => rfl
+    | panic => rfl
+    | ok evs am st2 rem2 =>
+      simp only
+      rcases hfa : feedAll m evs with ⟨m', o⟩
+      cases o with
+      | some r => cases r <;> rfl
+      | none =>
+        simp only
+        cases am with
+        | true => simp only [↓reduceIte]; cases m'.flush <;> rfl
+        | false =>
+          simp only [Bool.false_eq_true, ↓reduceIte]
+          cases m'.flush with
+          | some v => rfl
+          | none => cases rest.isEmpty <;> rfl
+
+
+/-- The whole text in one chunk, then end of input: the one-shot parser's result. -/
+theorem rawRun_single (hC : FlushCoupled) (T : List Char) :
+    cls (rawRun {} [] [T]) = cls (parseOne T) := by
+  rw [rawRun, parseOne, oneFrom_eq]
+  simp only [Raw.decode, List.nil_append]
+  rcases hD : decodeInner [.init] {} T with ⟨st, m, rest, o⟩
+  cases o with
+  | none =>
+    simp only [rawRun]
+    have hid := decodeInner_none_idem [.init] {} T (by rw [hD])
+    rw [hD] at hid
+    simp only at hid
+    exact decodeEof_eq_finalOne st m rest hid (hC T st m rest hD)
+  | value v => rfl
+  | err => rfl
+  | panic => rfl
+  | fuel => rfl
+
+/-- **Incremental = one-shot (bare decoder, characters).**  However the text is cut into chunks, `decode` after every
+chunk and `decode_eof` at the end give the one-shot parser's result (`Ok(None)` at the end of the input counted as an
+error). -/
+theorem rawRun_eq_parseOne (hP : LxStable (lexPrimM true)) (hC : FlushCoupled) (c : List Char) (cs : List (List Char)) :
+    cls (rawRun {} [] (c :: cs)) = cls (parseOne (c :: cs).flatten) := by
+  rw [rawRun_merge hP cs {} [] c]
+  have : (c :: cs).flatten = c ++ cs.flatten := by simp
+  rw [this]
+  exact rawRun_single hC _
+
+
 end SwimVerif.ReconInc
